@@ -76,7 +76,7 @@ type runner struct {
 	tbl      map[string][]int    // idx-list string -> idx list (for the digest table)
 	t0       time.Time
 	ops      []string
-	sr       *hx.Rand // skip lists of the oracle sweeps: derived from the case, so that a replay repeats them
+	sr       *hx.Rand       // skip lists of the oracle sweeps: derived from the case, so that a replay repeats them
 	keys     [][]byte       // every 32-byte key that occurs in the case, emitted once
 	keyIdx   map[string]int // key -> index in keys
 }
